@@ -18,8 +18,8 @@ HDR = 'celma/common/fixed_string.hpp'
 # --------------------------------------------------------------------------------------------
 # shadow extraction
 
-DROP_SIG = re.compile(r'std::string::iterator|initializer_list|::sprintf')
-DROP_BODY = re.compile(r'initializer_list')
+DROP_SIG = re.compile(r'cv_nothing_dropped_by_signature')
+DROP_BODY = re.compile(r'cv_nothing_dropped_by_body')
 ACCESSOR_DECL = re.compile(r'^   (const_)?(reverse_)?iterator c?r?(begin|end)\(\)( const)? noexcept;\n$')
 ACCESSOR_DEF = re.compile(r'FixedString< L>::c?r?(begin|end)\(\)\s*(const)?\s*(noexcept)?\s*$')
 
@@ -41,7 +41,7 @@ def extract(shadow):
             d = m.group(0)
             if ACCESSOR_DECL.search(d):
                 return d
-            if re.search(r'std::string::iterator|initializer_list|sprintf', d):
+            if re.search(r'cv_nothing_dropped', d):
                 dropped.append('decl: ' + ' '.join(d.split()))
                 return ''
             if 'template< size_t S>' in d:
@@ -115,8 +115,8 @@ def extract(shadow):
     rules = [
         Rule('R-NNS-open', r'^namespace celma::common \{', 'namespace celma { namespace common {', 1),
         Rule('R-NNS-close', r'^\} // namespace celma::common', '}} // namespace celma::common', 1),
-        Rule('drop-includes', r'^#include (<iostream>|<cstdarg>|<cstdio>|"celma/common/length_type.hpp"|'
-             r'"celma/common/detail/fixed_string_iterator.hpp"|"celma/common/detail/fixed_string_reverse_iterator.hpp")\n', '', 6),
+        Rule('drop-includes', r'^#include (<iostream>|"celma/common/length_type.hpp"|'
+             r'"celma/common/detail/fixed_string_iterator.hpp"|"celma/common/detail/fixed_string_reverse_iterator.hpp")\n', '', 4),
         Rule('CV_SIZE_TYPE', r'using size_type = typename LengthType< L>::type;', 'typedef CV_SIZE_TYPE size_type;', 1),
         # R-CONDREF: symex aborts (address_arithmetic invariant) on a conditional expression of reference type whose arm is a call
         # with class-type arguments; the one such return statement is written as if/return (same evaluation order, same result)
@@ -127,7 +127,7 @@ def extract(shadow):
         # mem* calls go through forwarding functions that check the byte range against the buffer of the registered objects.
         Rule('R-IDX', r'(?<![&\w.])mString\[ (?!L \+ 1\])([^\]]*)\]', r'mString[ cv_idx( \1, L + 1)]', (30, 60)),
         Rule('R-ADR', r'&mString\[ ([^\]]*)\]', r'&mString[ cv_adr( \1, L + 1)]', (25, 50)),
-        Rule('R-MEMSUB', r'(?:std)?::(memcpy|memmove|memset|memcmp)\(', r'::cv_\1(', (30, 50)),
+        Rule('R-MEMSUB', r'(?:std)?::(memcpy|memmove|memset|memcmp|vsnprintf)\(', r'::cv_\1(', (30, 50)),
         Rule('R-ACCESS', r'^private:', 'public:', 1),
         Rule('R-THROW', r'throw std::out_of_range\([^;]*\);', 'CV_THROW( 1);', 2, flags=re.M | re.S),
         # T-INST: the two-parameter free operator templates cannot be instantiated by the front end;
@@ -157,7 +157,7 @@ def extract(shadow):
     path = shadow.extract(HDR, rules, pre=pre)
     n_decl = sum(1 for d in dropped if d.startswith('decl'))
     n_def = sum(1 for d in dropped if d.startswith('def'))
-    if not (3 <= n_decl <= 12 and n_decl == n_def):
+    if not (0 <= n_decl <= 12 and n_decl == n_def):
         raise Undecided('extraction: dropped %d declarations / %d definitions of FixedString, expected about 4/4'
                         % (n_decl, n_def))
     shadow.dropped += dropped
@@ -292,6 +292,7 @@ OBSERVERS = []   # filled in by fs_obs.py (C11 observers)
 # text generation
 
 SUBOBJ = [
+    '#include <cstring>', '#include <cstdio>',
     '// sub-object bounds (R-IDX / R-ADR / R-MEMSUB): obligations CBMC does not generate itself (its checks are object-granular)',
     'extern "C" { const void* cv_reg_obj[3]; size_t cv_reg_cap[3]; }   /* the FixedString objects of this call and their capacities */',
     'inline size_t cv_idx( size_t i, size_t n) { __CPROVER_assert(i < n, "sub-object bound: index inside mString[ L + 1]"); return i; }',
@@ -302,6 +303,7 @@ SUBOBJ = [
     'inline void* cv_memmove( void* d, const void* s, size_t n) { cv_sub( d, n); cv_sub( s, n); return ::memmove( d, s, n); }',
     'inline void* cv_memset( void* d, int c, size_t n) { cv_sub( d, n); return ::memset( d, c, n); }',
     'inline int cv_memcmp( const void* a, const void* b, size_t n) { cv_sub( a, n); cv_sub( b, n); return ::memcmp( a, b, n); }',
+    'inline int cv_vsnprintf( char* s, size_t n, const char* f, va_list ap) { cv_sub( s, n); return std::vsnprintf( s, n, f, ap); }',
 ]
 
 
@@ -705,6 +707,8 @@ def replay_args(m, L, K, inputs, content, S2=None):
             a.append('other_c=' + ''.join('%02x' % (gi('%s_%d' % (name, j)) & 255) for j in range(L)))
         elif kind == 'G':
             a.append('str=' + ''.join('%02x' % (gi('%s_%d' % (name, j)) & 255) for j in range(min(gi(name + '_n'), S2 or L))))
+    if m.id == 'sprintf':
+        a.append('would=%d' % gi('cvin_would'))   # length of the complete output chosen by the vsnprintf contract
     if content:
         a.append('content=1')
     return a
@@ -761,7 +765,7 @@ def evidence_info(unit, tier):
                         ' Proof is per capacity instance L (not for all L); loops are bounded by L/K and unwound with unwinding assertions.'),
         'trusted_base': ['CBMC 6.11 C++ front end on the shadow header (rules and drops listed under extraction)',
                          'CBMC built-in models of memcpy/memmove/memset/memcmp/strlen/strchr (carry the ISO C preconditions)',
-                         'stand-in <string> (malloc-backed, never freed, allocation assumed to succeed, temporaries longer than CV_STR_CAP not explored), <cstring>, <cstdint>, <stdexcept>',
+                         'stand-in <string> (malloc-backed, never freed, allocation assumed to succeed, temporaries longer than CV_STR_CAP not explored), <cstring>, <cstdint>, <stdexcept>, <cstdarg>, <cstdio> (vsnprintf by assumed contract)',
                          'MiniSat (built into cbmc)', 'g++ witness: CV_SIZE_TYPE equals LengthType<L>::type',
                          'layout witness: sizeof(FixedString<L>) in CBMC\'s C++ layout asserted in every harness'],
         'assumptions': ['per-instance proof: capacities ' + ('3, 5 (quick) / 2, 3, 5, 8 (thorough); cross-capacity members with second capacity L-1, L, L+1' if c11 else
@@ -770,6 +774,6 @@ def evidence_info(unit, tier):
                                                            'there: 17 in the quick tier, 33 in the thorough tier, the others time out; 65535/65536 not reached') + '; cross-capacity instances only where both capacities share the length type',
                         'source C-strings / std::string arguments of length <= L+3 (bounded); (str,count) buffers of <= L+3 bytes',
                         'throw in at() modelled by R-THROW (flag + return)', 'termination not proved',
-                        'the overloads taking std::string::iterator or std::initializer_list, the cross-capacity (template<size_t S>) overloads, sprintf, the defaulted/move special members and stream output are not under contract; the overloads taking FixedString iterators (insert/erase/replace/append), FixedString(const char*) and FixedString(const std::string&) are, and so are the iterator classes themselves (textual instantiation T := char, F := FixedString<L>)'],
+                        'the defaulted/move special members and stream output are not under contract; every other member is: the overloads taking std::initializer_list (a (pointer, length) view built field-wise by the wrapper) and std::string::iterator (pointers into the stand-in string) included; sprintf is under contract for C10 with vsnprintf as ASSUMED contract (writes at most n bytes, NUL-terminated, returns the would-be length >= 0; encoding errors not modelled); the overloads taking FixedString iterators (insert/erase/replace/append), FixedString(const char*) and FixedString(const std::string&) are, and so are the iterator classes themselves (textual instantiation T := char, F := FixedString<L>)'],
         'not_under_contract': drops + ['FixedString() default constructor, copy constructor, destructor, copy assignment (all `= default`), move constructor (rvalue reference)'],
     }
